@@ -184,6 +184,27 @@ pub async fn serve_stages(codec: Codec, stages: &[Stage]) -> ServeResult {
 }
 
 pub const DAY: u64 = 86_400;
+/// the boundary deadlines plus spans inside the timers' supported range: on an aged connection
+/// the range that matters is the one left until the wheel's limit (about 795 days after the
+/// connection's timer queue was created)
+pub fn age_durations() -> Vec<(&'static str, Duration)> {
+    let mut v = boundary_durations();
+    v.extend([
+        ("10s", Duration::from_secs(10)),
+        ("30d", Duration::from_secs(30 * DAY)),
+        ("1y", Duration::from_secs(365 * DAY)),
+        ("500d", Duration::from_secs(500 * DAY)),
+        ("600d", Duration::from_secs(600 * DAY)),
+        ("693d", Duration::from_secs(693 * DAY)),
+        ("729d", Duration::from_secs(729 * DAY)),
+        ("730d-1s", Duration::from_secs(730 * DAY - 1)),
+        ("730d", Duration::from_secs(730 * DAY)),
+        ("730d+1s", Duration::from_secs(730 * DAY + 1)),
+        ("795d", Duration::from_secs(795 * DAY)),
+        ("796d", Duration::from_secs(796 * DAY)),
+    ]);
+    v
+}
 pub fn ages() -> Vec<(&'static str, Duration)> {
     vec![
         ("0", Duration::ZERO),
@@ -192,6 +213,8 @@ pub fn ages() -> Vec<(&'static str, Duration)> {
         ("65d", Duration::from_secs(65 * DAY)),
         ("67d", Duration::from_secs(67 * DAY)),
         ("70d", Duration::from_secs(70 * DAY)),
+        ("100d", Duration::from_secs(100 * DAY)),
+        ("300d", Duration::from_secs(300 * DAY)),
         ("1y", Duration::from_secs(365 * DAY)),
         ("2y", Duration::from_secs(730 * DAY)),
         ("2.2y", Duration::from_secs(803 * DAY)),
@@ -213,7 +236,7 @@ pub enum Prior {
 pub async fn server_age_cases(st: &mut S16, codec: Codec) {
     for prior in [Prior::Fresh, Prior::Served, Prior::Held] {
         for (an, age) in ages() {
-            for (dn, d) in boundary_durations() {
+            for (dn, d) in age_durations() {
                 let mut stages = vec![];
                 let first = match prior {
                     Prior::Fresh => vec![],
@@ -387,7 +410,7 @@ fn reply(codec: Codec, id: u64, s: &str) -> Vec<u8> {
 pub async fn client_age_cases(st: &mut S16, codec: Codec) {
     for prior in [Prior::Fresh, Prior::Served, Prior::Held] {
         for (an, age) in ages() {
-            for (dn, d) in boundary_durations() {
+            for (dn, d) in age_durations() {
                 st.evals += 1;
                 st.distinct.insert(h(&(codec, "client-age", prior, an, dn)));
                 let label = format!("{codec:?} client connection {prior:?}, aged {an}, then a local call with deadline now+{dn}");
